@@ -169,6 +169,12 @@ def rewrite (style : Style) (cmd : List Char) (a : Args) : Fmt × Bool :=
 def phases (inline : List Char → Option (List Char)) (style : Style) (cmd : List Char) (a : Args) : Option (Fmt × Bool) :=
   (inline cmd).map fun c => rewrite style c a
 
+/-- the life of one cursor: successive `execute` calls.  `_rewrite_with_params` keeps no state between them (the
+    converter is a pure function of the value: no cache, no memo) -/
+def cursorRun (style : Style) : List (List Char × Args) → List (Fmt × Bool)
+  | [] => []
+  | (c, a) :: xs => rewrite style c a :: cursorRun style xs
+
 /-! ## paramstyle snapshot (`conn.py:51`) -/
 
 inductive POp where
@@ -222,8 +228,18 @@ inductive QBound where
   | error     -- conversion error
   deriving DecidableEq, Repr
 
-def qmarkBindInt (i : Int) : QBound :=
+/-- the pinned code handed every int to DuckDB's binding as it was: ≥ 2^64 became a DOUBLE (regression witness) -/
+def qmarkBindIntOld (i : Int) : QBound :=
   if i ≥ 2 ^ 64 then .double else if i < -(2 ^ 127) then .error else .exact
+
+/-- repaired code (`5c8660f`): an int outside the int64 range is bound as `Decimal`, which DuckDB receives exactly
+    as long as it has at most 38 digits (NUMBER(38,0), the whole domain of the property) -/
+def qmarkBindInt (i : Int) : QBound :=
+  if -(2 ^ 63) ≤ i ∧ i < 2 ^ 63 then .exact
+  else if -(10 ^ 38) < i ∧ i < 10 ^ 38 then .exact else .error
+
+/-- NUMBER(38,0) -/
+def inNumber38 (i : Int) : Prop := -(10 ^ 38) < i ∧ i < 10 ^ 38
 
 /-- expression skeleton, for counting placeholders.  `dup a` is a call whose rewrite renders its operand
     twice: `ARRAY_SIZE(a)` becomes `CASE WHEN JSON_ARRAY_LENGTH(a) THEN JSON_ARRAY_LENGTH(a) END`
